@@ -147,18 +147,26 @@ Print Assumptions C17_affine_rejects_bad_last_row.
 
 (* ---------- VTK export ---------- *)
 
-(* Full statement (not yet proved for all inputs; see the final report):
-     forall title version vs ts attrs, vtk_guard title version vs ts attrs = true ->
-       exists ls, vtk_write title version vs ts attrs = Ok ls /\
-                  vtk_grammar ls = Some (expected_mesh vs ts attrs).
-   Proved here: a concrete export with a two-component attribute is accepted
-   (by computation), and the two refutations that delimit the guard. *)
-Theorem C17_vtk_parses_partial :
+(* Every export inside the guard (title line of at most 205 bytes so that the
+   header fits the 256 bytes Neuroglancer inspects, no line break in the
+   title, non-negative triangle indices, attribute names non-empty and free
+   of white space, attribute tables of the announced shape) is written
+   without error and accepted by the grammar, which returns exactly the
+   exported points, triangles and attributes. *)
+Theorem C17_vtk_parses_on_guard : forall title version vs ts attrs,
+  vtk_guard title version vs ts attrs = true ->
+  exists ls, vtk_write title version vs ts attrs = Ok ls /\
+             vtk_grammar ls = Some (expected_mesh vs ts attrs).
+Proof. exact vtk_parses_on_guard_lemma. Qed.
+Print Assumptions C17_vtk_parses_on_guard.
+
+(* non-vacuity, by computation: a concrete export with a two-component attribute *)
+Theorem C17_vtk_parses_example :
   vtk_guard [116] vtk_version vtk_demo_vs vtk_demo_ts [vtk_demo_attr [99; 117; 114; 118]] = true /\
   exists ls, vtk_write [116] vtk_version vtk_demo_vs vtk_demo_ts [vtk_demo_attr [99; 117; 114; 118]] = Ok ls /\
              vtk_grammar ls = Some (expected_mesh vtk_demo_vs vtk_demo_ts [vtk_demo_attr [99; 117; 114; 118]]).
 Proof. exact vtk_demo_parses. Qed.
-Print Assumptions C17_vtk_parses_partial.
+Print Assumptions C17_vtk_parses_example.
 
 Theorem C17_vtk_name_whitespace_refuted :
   vtk_guard [] vtk_version vtk_demo_vs vtk_demo_ts [vtk_demo_attr [97; 32; 98]] = false /\
